@@ -80,8 +80,9 @@ def recordedEnv0 : Env :=
       | .obj _ _ fs =>
           -- a call with one plain argument is looked up under that argument first ("<method>(<arg>)"), then "<method>()"
           let keyed := match args with
-            | [.str k] => lookupField fs (m ++ "(" ++ k ++ ")")
-            | [.int i] => lookupField fs (m ++ "(" ++ toString i ++ ")")
+            | .str k :: _ => lookupField fs (m ++ "(" ++ k ++ ")")
+            | .int i :: _ => lookupField fs (m ++ "(" ++ toString i ++ ")")
+            | .obj _ i _ :: _ => lookupField fs (m ++ "(#" ++ toString i ++ ")")
             | _ => Option.none
           match keyed with
           | some v => some v
@@ -104,6 +105,20 @@ def recordedEnv : Env :=
         | some (_, fn) => some (callFn recordedEnv0 fn args)
         | none => Option.none }
 
+/-- free functions of the module that are not translated are answered from the table of recorded calls `gfs`
+    ("<function>(<first argument>)": a qubit / name / int, or `#<ident>` for an object). -/
+def recordedEnvG (gfs : List (String × Val)) : Env :=
+  { recordedEnv with
+    func := fun f args => match recordedEnv.func f args with
+      | some v => some v
+      | none =>
+        let key := match args with
+          | .str k :: _ => "(" ++ k ++ ")"
+          | .int i :: _ => "(" ++ toString i ++ ")"
+          | .obj _ i _ :: _ => "(#" ++ toString i ++ ")"
+          | _ => "()"
+        lookupField gfs (f ++ key) }
+
 partial def parseAll (toks : List String) : Option (List Val) :=
   match toks with
   | [] => some []
@@ -119,6 +134,10 @@ def handle (args : List String) : String :=
   | "effects" :: name :: rest =>
     match Qco.Gen.PySrc.all.find? (·.1 == name), parseAll rest with
     | some (_, fn), some vals => showVal (.list (callEffects recordedEnv fn vals))
+    | _, _ => "bad-op"
+  | "callg" :: name :: rest =>
+    match Qco.Gen.PySrc.all.find? (·.1 == name), parseAll rest with
+    | some (_, fn), some (.obj _ _ gfs :: vals) => showVal (callFn (recordedEnvG gfs) fn vals)
     | _, _ => "bad-op"
   | "call" :: name :: rest =>
     match Qco.Gen.PySrc.all.find? (·.1 == name), parseAll rest with
